@@ -159,7 +159,9 @@ class Pool(object):
                 'res': sorted(set(self.res[i]) | set(e.get('route_res', []))), 'nr': bool(self.cfg['apps'][i].get('nr_mw')),
                 'render': ('F%d' % i) if (e['out'] == 'ctx' and self.cfg['apps'][i].get('factory')) else None, 'chain': [i],
                 'stamp': ('S%d' % i) if self.cfg['apps'][i].get('stamp') else None,
-                'route_mark': ('mark-' + e['tag']) if e.get('route_mw') else None}
+                'route_mark': ('mark-' + e['tag']) if e.get('route_mw') else None,
+                # the harness's decorated variant calls the endpoint itself, with the three built-ins only
+                'wrapped': bool(e.get('wrapped'))}
 
     def embedded_entry(self, entry, i, prefix, rebind=False):
         """Model entry of an already bound entry re-bound into application i under prefix.
@@ -517,7 +519,7 @@ class C11(Check):
                 exec(src, ns)
                 wrapper = functools.wraps(inner_ep)(ns['wrapper'])
                 tagn = 'w%d' % step
-                e = dict(e0, tag=e0['tag'], route_res=[], route_mw=False)
+                e = dict(e0, tag=e0['tag'], route_res=[], route_mw=False, wrapped=True)
                 obj = Route(e['pattern'], wrapper, 'tmpl' if e['out'] == 'ctx' else None, methods=e['methods'])
                 try:
                     pool.apps[i].add(obj, index=op['index'])
@@ -687,6 +689,10 @@ class C11(Check):
             e = exp['entry']
             if got['route_res'] != ','.join(e['res']):
                 bad = ('visible-route-resources', 'route sees resources %r, expected %r' % (got['route_res'], ','.join(e['res'])))
+            elif got.get('injected') is not None and not e.get('wrapped') and got['injected'] != ','.join(
+                    '%s=value-%s-%s' % ((n,) + tuple(n[3:].split('_'))) for n in e['res'] if n in R.PROBED_RESOURCES):
+                bad = ('defaulted-resource-parameters', 'endpoint received %r for its defaulted resource parameters, the route has the resources %r'
+                       % (got['injected'], e['res']))
             elif got['app_res'] != ','.join(sorted(pool.res[i])):
                 bad = ('visible-app-resources', 'application resources %r, expected %r' % (got['app_res'], ','.join(sorted(pool.res[i]))))
             elif e['out'] == 'ctx' and got['rendered_by'] != e['render']:
